@@ -834,6 +834,7 @@ func (txn V2TransactionSemantics) EncodeTo(e *Encoder) {
 	e.WriteUint64(uint64(len(txn.SiafundInputs)))
 	for _, in := range txn.SiafundInputs {
 		in.Parent.ID.EncodeTo(e)
+		in.ClaimAddress.EncodeTo(e)
 	}
 	e.WriteUint64(uint64(len(txn.SiafundOutputs)))
 	for _, out := range txn.SiafundOutputs {
